@@ -4,13 +4,14 @@ import Jose.Driver.Jwk
 import Jose.Driver.Entity
 import Jose.Driver.Jws
 import Jose.Driver.Jwe
+import Jose.Driver.Cli
 /-
   Line-protocol driver: answers each `<op> <json>` line from the model.
   (`lake exe josemodel < ops`); see harness/hx.c for the real side.
 -/
 open Jose Jose.Driver
 
-def allOps : List (String × (Json → Json)) := b64Ops ++ ioOps ++ jwkOps ++ entityOps ++ jwsOps ++ jweOps
+def allOps : List (String × (Json → Json)) := b64Ops ++ ioOps ++ jwkOps ++ entityOps ++ jwsOps ++ jweOps ++ cliOps
 
 def handle (line : String) : String :=
   let line := line.trimAscii.toString
